@@ -524,8 +524,13 @@ class SysEngine(MempoolEngine):
         if lp:
             # long-park policy: a client read job may stay descheduled across whole polls and refreshes
             def on_submit(job):
-                if job.name.split('.')[-1] in ('read_history', 'read_utxos') and rng.random() < lp:
+                t = asyncio.current_task()
+                owner = getattr(t.get_coro(), '__qualname__', '') if t else ''
+                if 'fetch_and_process_blocks' in owner or 'keep_synchronized' in owner or '_refresh_hashes' in owner:
+                    return      # only client-request reads are held back, never the block processor's or the mempool's own
+                if job.name.split('.')[-1] in ('read_history', 'read_utxos', 'fs_tx_hashes_at_blockheight', 'read_headers') and rng.random() < lp:
                     job.longpark = 'job-end'
+                    job.park_secs = rng.choice((6, 11, 17, 26))      # below the 30 s request / notification timeouts
                     self.bump('jobs_long_parked')
             loop.gex.on_submit = on_submit
         loop.hooks.append(self.db_height_hook)
@@ -596,6 +601,24 @@ class SysEngine(MempoolEngine):
         self.counters['session_reorg_signals'] = sm._reorg_count
         await self.srv.stop()
         self.srv.close_db()
+
+
+def gen_race_script(rng, n_events, nclients, nscripts):
+    '''Queries sent immediately before a chain change (so that their reads are in flight while blocks are undone).'''
+    script = []
+    for ci in range(nclients):
+        script.append(('hsub', ci))
+        for si in rng.sample(range(nscripts), min(3, nscripts)):
+            script.append(('sub', ci, si))
+    qk = ('id_from_pos', 'id_from_pos', 'get_history', 'get_merkle', 'id_from_pos_merkle', 'listunspent', 'header_proof')
+    for _ in range(n_events):
+        script.append(('w', rng.choice(('add', 'mine_all', 'mine_some'))))
+        script.append(('sleep', rng.choice((6, 12))))
+        for _q in range(rng.randrange(2, 5)):
+            script.append(('q', rng.choice(qk)))
+        script.append(rng.choice((('w', 'reorg'), ('w', 'reorg'), ('rpc_reorg', 2), ('w', 'mine2'))))
+        script.append(('sleep', rng.choice((0, 0.05, 6, 12))))
+    return script
 
 
 def gen_script(rng, n_events, nclients, nscripts, *, queries=True, forced=True):
